@@ -24,7 +24,7 @@ from sim.oracle import carry_over, first_diff, hist_arrays, missed_tuple, wellfo
 
 PROPERTY = "C18"
 LEVEL = "fault_enumeration"
-RUNS = {"quick": 40000, "thorough": 1000000}
+RUNS = {"quick": 60000, "thorough": 1000000}
 WALL = {"quick": 240, "thorough": 1500}
 PARTITIONS = [{"name": "default", "env": {}}]
 
